@@ -210,7 +210,7 @@ def evaluate(case):
 def run(R):
     global ALPHA
     ALPHA = alphabet(R.thorough)
-    d_lx, d_nolx, d_narrow = (6, 6, 8) if R.thorough else (5, 4, 6)
+    d_lx, d_nolx, d_narrow = (6, 5, 7) if R.thorough else (5, 4, 6)
     s1 = bfs.search(R, expand_lx, [[]], d_lx, 'lx', max_states=3000000)
     s2 = bfs.search(R, expand_nolx, [[]], d_nolx, 'nolx')
     s3 = bfs.search(R, expand_narrow, [[]], d_narrow, 'narrow', max_states=3000000)
